@@ -323,4 +323,36 @@ def shutdown (threaded : Bool) (maxSend : Nat) (c : Conn) (script : List SelEv) 
     | (c1, sent, e) => ⟨{ c1 with closed := true }, sent, some e, true⟩
   else ⟨{ c with closed := true }, [], none, true⟩
 
+/-! ### the idle reaper as a further environment event -/
+
+/-- `HttpProtocolHandler.is_inactive()`:
+    `not self.work.has_buffer() and time.time() - self.last_activity > self.flags.timeout`.
+    `elapsed` is `time.time() - last_activity` when the reaper looks (any value:
+    how `last_activity` is refreshed is C20's model, `PxModel/Idle.lean`), both in
+    clock units; `timeout` may be zero or negative (the flag is an unchecked int). -/
+def isInactive (s : St) (elapsed timeout : Int) : Bool :=
+  !s.client.hasBuffer && decide (elapsed > timeout)
+
+/-- what can happen to the connection between two executor rounds: a round
+    (`Tick`), or `Threadless._cleanup_inactive()` looking at it -/
+inductive Ev
+  | tick (t : Tick)
+  | reap (elapsed timeout : Int)
+  deriving DecidableEq, Repr
+
+/-- how a run with reaper events ended: still open; `handle_events` returned
+    `True`; an exception escaped; closed by the reaper (`_cleanup` → `shutdown()`,
+    which in threadless mode sends nothing) -/
+inductive End | open_ | teardown | raised | reaped
+  deriving DecidableEq, Repr
+
+def runEv (s : St) : List Ev → St × End
+  | [] => (s, .open_)
+  | .tick t :: es =>
+    match step s t with
+    | (s1, .cont) => runEv s1 es
+    | (s1, .teardown) => (s1, .teardown)
+    | (s1, .raised) => (s1, .raised)
+  | .reap e to :: es => if isInactive s e to then (s, .reaped) else runEv s es
+
 end Px.Relay
